@@ -45,6 +45,7 @@ func getCachedPath(expr string) []string {
 // Stack provides stack-based variable lookup and convenient typed accessors.
 type Stack struct {
 	stack    []map[string]any // bottom..top, top is last element
+	pooled   []bool           // pooled[i] reports whether stack[i] was obtained from mapPool by Push(nil)
 	rootData any              // original data passed to Render (for struct field fallback)
 }
 
@@ -81,10 +82,16 @@ func (s *Stack) Copy() *Stack {
 // Push a new map as a top-most Stack.
 // If m is nil, an empty map is obtained from the pool.
 func (s *Stack) Push(m map[string]any) {
-	if m == nil {
+	fromPool := m == nil
+	if fromPool {
 		m = mapPool.Get().(map[string]any)
 	}
+	// keep the flags aligned with the scopes (stacks built without Push have none yet)
+	for len(s.pooled) < len(s.stack) {
+		s.pooled = append(s.pooled, false)
+	}
 	s.stack = append(s.stack, m)
+	s.pooled = append(s.pooled, fromPool)
 }
 
 // Pop the top-most Stack. If only root remains it still pops to empty slice safely.
@@ -96,14 +103,18 @@ func (s *Stack) Pop() {
 	// Return the top map to the pool before removing it
 	topIdx := len(s.stack) - 1
 	topMap := s.stack[topIdx]
-	// Clear the map and return it to pool if it's not the root
-	if topIdx > 0 && len(topMap) > 0 {
+	// Clear the map and return it to the pool only if it came from the pool:
+	// a map passed to Push by the caller is the caller's and is left untouched.
+	if topIdx > 0 && topIdx < len(s.pooled) && s.pooled[topIdx] && len(topMap) > 0 {
 		for k := range topMap {
 			delete(topMap, k)
 		}
 		mapPool.Put(topMap)
 	}
 	s.stack = s.stack[:topIdx]
+	if len(s.pooled) > topIdx {
+		s.pooled = s.pooled[:topIdx]
+	}
 	if len(s.stack) == 0 {
 		s.stack = append(s.stack, map[string]any{})
 	}
